@@ -305,6 +305,46 @@ reg("C33", sim(
     "full enumeration of OP choice vectors (8 x 8 [x 2]) per event; distinct = distinct observation traces",
     "DESIGN.md §4 C33", floor=(200, 50)))
 
+BYTES_RULE = ("L-bytes lattice around every seed: identity, every truncation length, every single-byte substitution from "
+              "{00,01,02,03,07,08,7f,80,fe,ff}, every 2-aligned 16-bit and 4-aligned 32-bit field substitution (both byte orders) "
+              "from {0,1,2,3,4,8,len-1,len,len+1,0x7fff,0x8000,0xfffc,0xfffe,0xffff} / {0,1,2,4,len-1,len,len+1,0x100,0x10000,"
+              "0x7fffffff,0x80000000,0xfffffffe,0xffffffff} (thorough: all pairs of 32-bit substitutions in the first 64 bytes), "
+              "plus the closed space RTPS header + one submessage of every id 0..255 x flags 0..15 x declared length in "
+              "{0,1,3,4,8,20,28,63,64,65,0xffff} x body in {zeros, ones}. Seeds: every distinct datagram (by sender, submessage "
+              "kinds and entity ids) of a real simulated run with discovery, fragmented and unfragmented user data, dispose, "
+              "GAP, ACKNACK with bits, NACK_FRAG, HEARTBEAT, with fragment sizes 64 and 1344, and the serialized payloads found in them. "
+              "distinct = distinct (target, mutation shape, outcome) triples")
+
+reg("C07", Spec(
+    "simcheck", "exploration",
+    "Every case of the L-bytes lattice is fed to RtpsMessageRead::try_from (datagram seeds + synthetic messages) and, for payload "
+    "seeds, to the discovery decoders (participant, publication, subscription, topic: each seed also to a neighbouring decoder), "
+    "the type-lookup request/reply types and the user sample types through deserialize_top_level_type, each additionally with all "
+    "12 representation identifiers. Oracle: returns Ok or Err; no panic; peak allocation ≤ 64 x input length + 64 KiB (counting "
+    "global allocator); no abort and no hang (the sweep runs in a supervised child process: a death or 6 s without progress is "
+    "attributed to the exact input and the sweep resumes after it).",
+    "Trusted: the supervisor/child protocol and the counting allocator of the harness.",
+    "bounded-exhaustive enumeration of a byte-level neighbourhood of valid encodings (deviation bound 1, thorough 2) with a totality oracle, crash-isolated",
+    "DESIGN.md §4 C07", BYTES_RULE,
+    ["byte strings further than one (two) substitutions from a valid encoding are not explored", "user payload types: the keyed and the string-bearing sample type of the harness"],
+    floor=(100000, 30), timeout=(300, 7200), mem_gb=8))
+
+reg("C06", Spec(
+    "simcheck", "exploration",
+    "Every case of the L-bytes lattice over the captured datagrams (quick: half of the byte-substitution set) is injected through "
+    "TransportDataReceiver::receive_message into a running participant P1 that has discovered a peer P2 and has matched user "
+    "endpoints in both directions — after discovery (all cases), mid-transfer of a fragmented sample (reduced set) and before "
+    "discovery (thorough). Each injection is one complete simulated execution. Oracle: the worker does not panic; the execution "
+    "terminates within its step and virtual-time caps and the process neither aborts nor hangs (supervised child); peak allocation "
+    "of the execution ≤ 8 MiB + 64 x length + 64 KiB; afterwards get_qos and create_topic succeed and a reliable write->read round "
+    "trip works in both directions on endpoints that the injected bytes do not name (a forged well-formed message naming an "
+    "endpoint can legitimately shadow its sequence numbers — spoofing is outside the property).",
+    "Trusted: simulation harness (see C01), supervisor/child protocol, counting allocator.",
+    "bounded-exhaustive fault injection: every datagram of a byte-level neighbourhood injected into a live simulated participant",
+    "DESIGN.md §4 C06", BYTES_RULE,
+    ["sequences of several malformed datagrams are not explored (one injection per execution)", "the UDP transport's own receive path is not on the explored path"],
+    floor=(50000, 8), timeout=(400, 7200), mem_gb=8))
+
 API_RULE = ("every operation history up to the stated depth over the stated alphabet (one OP choice point per step, all "
             "alternatives at every step = full enumeration, no deviation bound); each history is one execution against a real "
             "participant and its worker; every return value is compared with a reference contract model; distinct = distinct "
